@@ -528,6 +528,13 @@ class C14(Prop):
             view = oracles.RunView(rec, i)
             for k in range(len(case.get('em') or ())):
                 vs += oracles.o_events(case, rec, ref, view, em_idx=k)
+        if case.get('em'):
+            for v in oracles.o_leftover(case, rec, len(refs)):
+                if v.clause == 'late_activity' and ' ev_' in ' ' + v.detail:
+                    # an event callback after the run (and hence after on_pipeline_complete) has ended
+                    v.props.add('C14')
+                    v.clause = 'event_after_run_end'
+                    vs.append(v)
         return vs
 
     def nontrivial(self, case, rec, refs):
